@@ -36,6 +36,9 @@ def run(ctx, rep):
     cfgname = db.config
     lay = db.layouts()
     rep.floor('C01', 'LayoutTrait impls', len(lay), 7)
+    # the AIR's own sizes and parameters (N_CONSTRAINTS, MASK_SIZE, CONSTRAINT_DEGREE, column counts, builtin ratios ...)
+    common.constants_check(db, rep, 'C01.constants', cfgname, layouts=True)
+    periodic_gating(db, rep, lay, cfgname)
 
     # ---------- (d) result discipline over Reach(verify) ----------
     R = db.reach([VERIFY])
@@ -259,3 +262,50 @@ def fri_input_flow(db, rep, lay):
         rep.ob('C01.flow', f'{lname}/fri-input', ok,
                f'FRI decommitment values must depend on decommitted cells, OODS values/point, DEEP coefficients and queries; '
                f'missing: {missing}', fn.loc(), db.config)
+
+
+def periodic_gating(db, rep, lay, cfgname):
+    """dynamic layout: the periodic columns of a builtin (Pedersen points, ECDSA generator points, Keccak and Poseidon
+    round keys) are evaluated exactly on the side of the `uses_<builtin>_builtin == 0` test where the builtin IS used
+    (and are zero otherwise): every call of periodic_columns::eval_<builtin>.. is dominated by the non-zero arm of the test
+    on that builtin's flag. (Sibling rule: the four builtins are gated the same way.)"""
+    import re
+    import exprtree
+    if 'dynamic' not in lay:
+        return
+    m = common.layout_method(db, lay['dynamic'], 'eval_composition_polynomial', 'C01.periodic')
+    if m is None or not m.has_mir or m.compact:
+        rep.fail_closed('C01.periodic', 'dynamic::eval_composition_polynomial not available')
+        return
+    T = exprtree.Trees(db, m)
+    dom = m.dominators()
+    tests = {}
+    for bi, b in enumerate(m.blocks):
+        t = b['term']
+        if t['k'] != 'switch' or b.get('cleanup'):
+            continue
+        c = T.operand(t['op'])
+        sh = exprtree.show(c)
+        mm = re.search(r'uses_(\w+?)_builtin', sh)
+        if not (mm and isinstance(c, tuple) and c[0] in ('Eq', 'Ne', 'eq', 'ne') and ('val', 0) in c[1:]):
+            continue
+        zero_t = [tb for v, tb in t.get('targets', []) if str(v) == '0']
+        if not zero_t:
+            continue
+        # block entered when the builtin is used (flag != 0)
+        used = zero_t[0] if c[0] in ('Eq', 'eq') else t.get('otherwise')
+        tests[mm.group(1)] = (bi, used, sh)
+    n = 0
+    for bi, t in m.calls():
+        r = t['f'].get('resolved') or ''
+        mm = re.search(r'periodic_columns::eval_([a-z]+)_', r)
+        if not mm:
+            continue
+        b = mm.group(1)
+        n += 1
+        tst = tests.get(b)
+        ok = tst is not None and tst[1] is not None and tst[1] in dom.get(bi, ())
+        rep.ob('C01.periodic', f'{r.split("::")[-1]}', ok,
+               f'{r.split("::")[-1]} must be evaluated only when uses_{b}_builtin != 0' + ('' if ok else
+               (f'; it is not on the non-zero side of {tst[2][:70]}' if tst else f'; no test on uses_{b}_builtin found')), m.loc(t['line']), cfgname)
+    rep.floor('C01.periodic', 'periodic column evaluations in the dynamic layout', n, 8)
